@@ -47,7 +47,7 @@ XTrees(n) == IF n = 0 THEN XLeaves
                   T \cup [op : {"not"}, a : T] \cup [op : {"and", "or", "nand"}, a : T, b : T]
 XK == IF XSize = "full" THEN {{}, {<<"a">>}, {<<"a", "b">>}, {<<"b">>, <<"a">>}} ELSE {{}, {<<"a">>}, {<<"b">>, <<"a", "b">>}}
 XN == IF XSize = "full" THEN {{}, {<<"1">>}, {<<"2">>}} ELSE {{}, {<<"1">>}}
-XDocs == [mid : 1..2, rid : 1..MaxDocs, tok : [k : XK, n : XN]]
+XDocs == [mid : 1..2, rid : 1..MaxDocs, tok : [k : XK, n : XN], dup : {FALSE}]
 \* (A) every boolean shape with fixed paging; (B) every paging/range/order/limit with three shapes
 XQA == [ast : XTrees(Depth), from : {0}, to : {3}, order : {"desc"}, limit : {MaxDocs + 1}, withTotal : {TRUE}]
 XQB == [ast : {[op |-> "all"], [op |-> "not", a |-> [op |-> "lit", f |-> "k", terms |-> <<<<"a">>>>]]}
@@ -59,7 +59,8 @@ XQueries == XQA \cup XQB
 Pick(X) == RandomElement(X)
 RandSub(X, maxn) == RandomSubset(Pick(0..maxn), X)
 RandDoc == [mid |-> Pick(MIDs), rid |-> Pick(RIDs \ {d.rid : d \in Range(corpus)}),
-            tok |-> [k |-> RandSub(KVals, 2), n |-> RandSub(NVals, 1)]]
+            tok |-> [k |-> RandSub(KVals, 2), n |-> RandSub(NVals, 1)],
+            dup |-> Pick({FALSE, FALSE, TRUE})]      \* dup: every token of the document is delivered twice (token multiset)
 RECURSIVE RandTree(_)
 RandTree(n) ==
   IF n = 0 THEN Pick(Pick({LeafLitK, LeafLitK, LeafLitN, LeafRng, LeafRng, LeafIn, LeafAll}))
